@@ -282,13 +282,13 @@ impl Runner {
 
     fn sps(&mut self, d: &[u8]) -> String {
         match SeqParameterSet::from_bits(BitReader::new(d)) {
-            Ok(s) => { let t = format!("Ok({:?})", s); self.ctx.put_seq_param_set(s); t }
+            Ok(s) => { let t = format!("Ok({:?})", s); { let _ = self.ctx.put_seq_param_set(s); }; t }
             Err(e) => err_show(&e),
         }
     }
     fn pps(&mut self, d: &[u8]) -> String {
         match PicParameterSet::from_bits(&self.ctx, BitReader::new(d)) {
-            Ok(p) => { let t = format!("Ok({:?})", p); self.ctx.put_pic_param_set(p); t }
+            Ok(p) => { let t = format!("Ok({:?})", p); { let _ = self.ctx.put_pic_param_set(p); }; t }
             Err(e) => err_show(&e),
         }
     }
@@ -353,8 +353,8 @@ impl Runner {
     pub fn nal_on(&mut self, nal: &RefNal<'_>) -> String {
         let hdr = match nal.header() { Ok(h) => h, Err(_) => return "hdr:err".into() };
         match hdr.nal_unit_type().id() {
-            7 => match SeqParameterSet::from_bits(nal.rbsp_bits()) { Ok(s) => { let t = format!("sps:Ok({:?})", s); self.ctx.put_seq_param_set(s); t } Err(e) => format!("sps:{}", err_class(&e)) },
-            8 => match PicParameterSet::from_bits(&self.ctx, nal.rbsp_bits()) { Ok(p) => { let t = format!("pps:Ok({:?})", p); self.ctx.put_pic_param_set(p); t } Err(e) => format!("pps:{}", err_class(&e)) },
+            7 => match SeqParameterSet::from_bits(nal.rbsp_bits()) { Ok(s) => { let t = format!("sps:Ok({:?})", s); { let _ = self.ctx.put_seq_param_set(s); }; t } Err(e) => format!("sps:{}", err_class(&e)) },
+            8 => match PicParameterSet::from_bits(&self.ctx, nal.rbsp_bits()) { Ok(p) => { let t = format!("pps:Ok({:?})", p); { let _ = self.ctx.put_pic_param_set(p); }; t } Err(e) => format!("pps:{}", err_class(&e)) },
             1 | 5 => format!("slice:{}", self.slice_on(hdr, nal.rbsp_bits())),
             6 => format!("sei:{}", self.sei_messages(nal.rbsp_bytes()).join(" ")),
             t => format!("other:{}", t),
@@ -367,8 +367,8 @@ impl Runner {
         let hdr = match NalHeader::new(nal[0]) { Ok(h) => h, Err(_) => return Some("hdr:err".into()) };
         let (rbsp, valid) = unescape(&nal[1..]); if !valid { return None; }
         Some(match hdr.nal_unit_type().id() {
-            7 => match SeqParameterSet::from_bits(BitReader::new(&rbsp[..])) { Ok(s) => { let t = format!("sps:Ok({:?})", s); self.ctx.put_seq_param_set(s); t } Err(e) => format!("sps:{}", err_class(&e)) },
-            8 => match PicParameterSet::from_bits(&self.ctx, BitReader::new(&rbsp[..])) { Ok(p) => { let t = format!("pps:Ok({:?})", p); self.ctx.put_pic_param_set(p); t } Err(e) => format!("pps:{}", err_class(&e)) },
+            7 => match SeqParameterSet::from_bits(BitReader::new(&rbsp[..])) { Ok(s) => { let t = format!("sps:Ok({:?})", s); { let _ = self.ctx.put_seq_param_set(s); }; t } Err(e) => format!("sps:{}", err_class(&e)) },
+            8 => match PicParameterSet::from_bits(&self.ctx, BitReader::new(&rbsp[..])) { Ok(p) => { let t = format!("pps:Ok({:?})", p); { let _ = self.ctx.put_pic_param_set(p); }; t } Err(e) => format!("pps:{}", err_class(&e)) },
             1 | 5 => format!("slice:{}", self.slice_on(hdr, BitReader::new(&rbsp[..]))),
             6 => format!("sei:{}", self.sei_messages(&rbsp[..]).join(" ")),
             t => format!("other:{}", t),
@@ -401,7 +401,7 @@ impl Runner {
     fn scratch_ctx(&self) -> &Context {
         self.scratch.get_or_init(|| { let mut c = Context::new();
             for id in 0..32u64 { let mut w = W::default(); w.u(8, 66).u(8, 0).u(8, 30).ue(id).ue(0).ue(2).ue(1).b(false).ue(3).ue(3).b(true).b(false).b(false).b(false); let d = w.trail();
-                if let Ok(s) = SeqParameterSet::from_bits(BitReader::new(&d[..])) { c.put_seq_param_set(s); } }
+                if let Ok(s) = SeqParameterSet::from_bits(BitReader::new(&d[..])) { { let _ = c.put_seq_param_set(s); }; } }
             c })
     }
     /// ctx ops: `s<id>:<tag>` put an SPS with that id (tag = level_idc), `p<id>:<spsid>:<tag>` put a PPS (tag = num_ref_idx_l0_default_minus1),
@@ -417,7 +417,7 @@ impl Runner {
                 let v: Vec<u64> = x.split(':').map(|y| y.parse().unwrap()).collect();
                 let mut w = W::default(); w.u(8, 66).u(8, 0).u(8, v[1]).ue(v[0]).ue(0).ue(0).ue(0).ue(0).b(false).ue(0).ue(0).b(true).b(false).b(false).b(false);
                 let d = w.trail();
-                out.push(match SeqParameterSet::from_bits(BitReader::new(&d[..])) { Ok(s) => { ctx.put_seq_param_set(s); "ok".into() } Err(_) => "rej".into() });
+                out.push(match SeqParameterSet::from_bits(BitReader::new(&d[..])) { Ok(s) => { { let _ = ctx.put_seq_param_set(s); }; "ok".into() } Err(_) => "rej".into() });
             }
             else if let Some(x) = op.strip_prefix('p') {
                 let v: Vec<u64> = x.split(':').map(|y| y.parse().unwrap()).collect();
@@ -426,7 +426,7 @@ impl Runner {
                 // the PPS value is built by parsing against a scratch context that holds an SPS under every id: `put_pic_param_set` is a
                 // plain store and must not depend on what the SPS store of *this* context holds
                 let scratch = self.scratch_ctx();
-                out.push(match PicParameterSet::from_bits(scratch, BitReader::new(&d[..])) { Ok(p) => { ctx.put_pic_param_set(p); "ok".into() } Err(_) => "rej".into() });
+                out.push(match PicParameterSet::from_bits(scratch, BitReader::new(&d[..])) { Ok(p) => { { let _ = ctx.put_pic_param_set(p); }; "ok".into() } Err(_) => "rej".into() });
             }
             else { out.push("bad".into()); }
         }
